@@ -337,7 +337,8 @@ Definition run_entry (bs : list batch) : state := run (map sanitize_batch bs).
                       mean duration * 10^6, mean total duration * 10^6))
        consumer    = ((tag, (method, url)), same)
        interceptor = ((type, version), timestamp)
-   Numbers travel as primitive 63-bit integers (all are non-negative), only
+   Numbers travel as primitive 63-bit integers (all are non-negative; a status
+   code goes through [zst]), only
    because their literals are cheap to read; they are converted to Z at once. *)
 
 Definition istr := list int.
@@ -354,6 +355,14 @@ Definition case := (list crec * list crun)%type.
 Definition zi : int -> Z := Uint63.to_Z.
 Definition zs (s : istr) : str := map zi s.
 
+(* A status code is a Go int and is used as it is logged (countStatusCodes:
+   res[record.StatusCode]++, any int is a key: HAProxy's placeholder -1, 0, 99,
+   600, 999 ... are counted like 200).  On the wire a value v >= 0 travels as v
+   and a negative value as 2^61 - v, so that all numbers stay non-negative. *)
+Definition status_bias : Z := 2305843009213693952.                   (* 2^61 *)
+Definition zst (x : int) : Z :=
+  let z := zi x in if z <? status_bias then z else status_bias - z.
+
 Definition tbl := list (str * str).
 Fixpoint tbl_get (t : tbl) (u : str) : str :=
   match t with
@@ -365,7 +374,7 @@ Definition ztbl (t : itbl) : tbl := map (fun p => (zs (fst p), zs (snd p))) t.
 (* a record of a case is a record as logged: it passes [sanitize] *)
 Definition rec_of (c : crec) : rec :=
   let '(m, u, st, d, td, ts, cs, ic, it) := c in
-  sanitize (mkRec (zs m) (zs u) (zi st) (zi d) (zi td) (zi ts) (zs cs) (zs ic) it).
+  sanitize (mkRec (zs m) (zs u) (zst st) (zi d) (zi td) (zi ts) (zs cs) (zs ic) it).
 
 Fixpoint batches_of (rs : list rec) (bs : list cbatch) : list batch :=
   match bs with
@@ -390,7 +399,7 @@ Definition agg_ok {K : Type} (keqb : K -> K -> bool) (skeqb : K * Z -> K * Z -> 
   | Some a =>
       (a_count a =? zi cnt) && (a_min a =? zi mn) && (a_max a =? zi mx)
       && avg_ok (zi ad) (zi cnt) (a_dsum a) && avg_ok (zi atd) (zi cnt) (a_tsum a)
-      && forallb (fun sc => match mfind skeqb (k, zi (fst sc)) ms with
+      && forallb (fun sc => match mfind skeqb (k, zst (fst sc)) ms with
                             | Some c => c =? zi (snd sc)
                             | None => false
                             end) sts
